@@ -145,6 +145,11 @@ def tasks_C06(tier, seed):
                 cfgs.append(sorted(rnd.sample(AUX_ONLY, k)))
         for c in cfgs:
             tasks.append(base_task(dict(e, out=[]), c, "voc", tier, one_to_one=True))
+    from . import variants
+
+    for e in variants.variant_corpus(corpus_G_all("thorough", 0, 1, skip=("C09", "C15", "C05")) + corpus_D(), 12 if tier == "quick" else 40,
+                                     250 if tier == "quick" else 2500, salt="C06"):
+        tasks.append(base_task(dict(e, out=[], outs=None), AUX_ONLY, "voc", tier, one_to_one=True))
     return tasks
 
 
@@ -173,6 +178,16 @@ def tasks_C01(tier, seed, only_opt=False, costs=False):
             if tier == "thorough" and hs and c in ("default", "all") and i < n_core:
                 tasks.append(base_task(dict(e, out=[rnd.choice(hs)], outs=None), c, "inout", tier, costs=costs))
                 tasks.append(base_task(dict(e, out=[], outs=None), c, "inout", tier, costs=costs))
+    from . import variants
+
+    vsrc = [e for e in core if not e["id"].startswith("T-")] + (wide if only_opt else corpus_G_all("thorough", 0, 1))
+    for j, e in enumerate(variants.variant_corpus(vsrc, 12 if tier == "quick" else 40, (150 if only_opt else 250) * (1 if tier == "quick" else 10),
+                                                  salt="C02" if only_opt else "C01")):
+        if only_opt and not has_opt(e):
+            continue
+        hs = [list(x) for x in head_sigs(e["text"])]
+        for c in (["default"] if tier == "quick" else ["default", "all"]):
+            tasks.append(base_task(dict(e, out=hs, outs=None), c, "inout", tier, costs=costs))
     return tasks
 
 
@@ -186,6 +201,12 @@ def tasks_C04(tier, seed):
         if tier == "thorough":
             cfgs += ["default", "none"]
         for c in cfgs:
+            tasks.append(base_task(dict(e, out=hs, outs=None), c, "voc", tier, c04=True))
+    from . import variants
+
+    for e in variants.variant_corpus(corpus_G_all("thorough", 0, 1) + corpus_D(), 12 if tier == "quick" else 40, 500 if tier == "quick" else 5000, salt="C04"):
+        hs = [list(x) for x in head_sigs(e["text"])]
+        for c in (["all"] if tier == "quick" else ["all", "default"]):
             tasks.append(base_task(dict(e, out=hs, outs=None), c, "voc", tier, c04=True))
     return tasks
 
